@@ -15,7 +15,11 @@ from lib import runner
 
 def load_obligations(prop):
     mod = importlib.import_module('obligations.' + prop)
-    return mod.OBLIGATIONS, getattr(mod, 'LEVEL_NOTE', '')
+    obs = list(mod.OBLIGATIONS)
+    if os.environ.get('VERIF_INCLUDE_UNREGISTERED'):
+        # obligations that a harness can express but that are not part of any tier (no verdict yet): --tier manual
+        obs += list(getattr(mod, 'UNREGISTERED', []))
+    return obs, getattr(mod, 'LEVEL_NOTE', '')
 
 
 def cmd_setup(a):
